@@ -174,16 +174,40 @@ class StorageKeyFormingConvention(CollisionEvadingConvention):
         else:
             suffix = self.make_suffix(safe_key)
 
-        full_key = f'{prefix}{safe_key[:max_length - len(prefix) - len(suffix)]}{suffix}'
-        return full_key
+        name = f'{safe_key[:max_length - len(prefix) - len(suffix)]}{suffix}'
+        name = self.make_edged_name(name, key=key, max_length=max_length - len(prefix))
+        return f'{prefix}{name}'
 
     def make_v2_key(self, key: str, max_length: int = 63) -> str:
         prefix = f'{self.prefix}/' if self.prefix else ''
         suffix = self.make_suffix(key) if len(key) > max_length else ''
         key_limit = max(0, max_length - len(suffix))
         safe_key =  self.make_safe_key(key)
-        final_key = f'{prefix}{safe_key[:key_limit]}{suffix}'
-        return final_key
+        name = f'{safe_key[:key_limit]}{suffix}'
+        name = self.make_edged_name(name, key=key, max_length=max_length)
+        return f'{prefix}{name}'
+
+    def make_edged_name(self, name: str, *, key: str, max_length: int) -> str:
+        """
+        Ensure the name begins & ends with alphanumerics, as K8s requires.
+
+        Names with other edge characters (e.g. of ``_private`` functions, ``fn/``,
+        ``<locals>.fn``) are always rejected by K8s, so nothing was ever stored under them:
+        only such names are re-formed; all valid names remain exactly as they were.
+        The hash suffix keeps the re-formed name apart from the ids it now resembles.
+        """
+        def _is_alnum(c: str) -> bool:
+            return c.isascii() and c.isalnum()
+
+        if name and _is_alnum(name[0]) and _is_alnum(name[-1]):
+            return name
+        name = name or 'x'
+        name = name if _is_alnum(name[0]) else f'x{name[1:]}'
+        name = name if _is_alnum(name[-1]) else f'{name[:-1]}x'
+        suffix = self.make_suffix(key)
+        if name.endswith(suffix) or name.endswith(self.make_suffix(self.make_safe_key(key))):
+            return name  # already cut & hashed: the hash tells it apart from the ids it resembles.
+        return f'{name[:max(1, max_length - len(suffix))]}{suffix}'
 
     def make_suffix(self, key: str) -> str:
         digest = hashlib.blake2b(key.encode('utf-8'), digest_size=4).digest()
